@@ -5,7 +5,7 @@
 
    What OpenSSL contributes (RAND_bytes, RSA_generate_key_ex, EC_KEY_generate_key) is an ARGUMENT of the
    model ([g_ext]): the random octets as a stream, the generated RSA / EC key as numbers.  Everything else --
-   template unpacking, int narrowing, range checks, exponent rule, number -> base64url member encoding
+   template unpacking, range checks, exponent rule, number -> base64url member encoding
    (bn_encode_json), copy_val, deletion of the generation-only members -- is computed here.
    No proofs in this file (Jwk/GenProofs.v). *)
 From JoseV Require Export Base.Json Codec.B64Json.
@@ -118,9 +118,6 @@ Definition g_opt_I (k : bytes) (dflt : Z) (jwk : json) : option Z :=
   | _ => None
   end.
 
-(* "i": jansson stores (int) json_integer_value() *)
-Definition g_to_int (z : Z) : Z := ((z + 2147483648) mod 4294967296 - 2147483648)%Z.
-
 (* BN_set_word(bn, json_integer_value(exp)): json_int_t -> BN_ULONG (64 bit) *)
 Definition g_to_ulong (z : Z) : N := Z.to_N (z mod 18446744073709551616)%Z.
 
@@ -177,7 +174,7 @@ Definition g_prep_execute (h : g_prep) (jwk : json) : option json :=
           | _ =>
               let len := g_alg2len t a in
               if (len =? 0)%Z then None
-              else if negb (byt =? 0)%Z && negb (byt =? len)%Z then None
+              else if g_has g_bytes jwk && negb (byt =? len)%Z then None   (* json_object_get(jwk, "bytes") && byt != len *)
               else if g_other kty g_oct then None
               else g_set2 g_kty (JStr g_oct) g_bytes (JInt len) jwk
           end
@@ -318,7 +315,7 @@ Record g_ec_key := { ek_d : N; ek_x : N; ek_y : N }.
 
 Record g_ext := {
   x_rand : bytes;                              (* the octets RAND_bytes will deliver (short = it fails) *)
-  x_rsa : Z -> N -> option g_rsa_key;          (* RSA_generate_key_ex(key, bits, e, NULL); None = <= 0 *)
+  x_rsa : Z -> N -> option g_rsa_key;          (* RSA_generate_key_ex(key, (int) bits, e, NULL); None = <= 0 *)
   x_ec : g_curve -> option g_ec_key            (* EC_KEY_new_by_curve_name + EC_KEY_generate_key *)
 }.
 
@@ -356,6 +353,9 @@ Fixpoint g_copy_val (from into : json) (names : list bytes) : option json :=
       end
   end.
 
+(* OPENSSL_RSA_MAX_MODULUS_BITS (openssl/rsa.h) *)
+Definition g_rsa_max_bits : Z := 16384%Z.
+
 (* rsa.c check_public_exponent: 3, or odd with 16 < bits < 257 *)
 Definition g_check_public_exponent (e : N) : bool :=
   (e =? 3) || (N.odd e && (16 <? g_num_bits e) && (g_num_bits e <? 257)).
@@ -364,21 +364,21 @@ Definition g_check_public_exponent (e : N) : bool :=
 Definition g_rsa_request (jwk : json) : option (Z * N) :=
   match jwk with
   | JObj m =>
-      (* int bits = 2048; json_unpack "{s?i,s?O}" bits e *)
+      (* json_int_t bits = 2048; json_unpack "{s?I,s?O}" bits e *)
       let bits := match alookup g_bits m with
                   | None => Some 2048%Z
-                  | Some (JInt z) => Some (g_to_int z)
+                  | Some (JInt z) => Some z
                   | Some _ => None
                   end in
       match bits with
       | None => None
       | Some bits =>
-          if (bits <? 2048)%Z then None
+          if (bits <? 2048)%Z || (g_rsa_max_bits <? bits)%Z then None
           else
             let exp := match alookup g_e m with None => JInt 65537 | Some v => v end in
             let bn := match exp with
                       | JStr _ => g_bn_decode_json exp
-                      | JInt z => Some (g_to_ulong z)
+                      | JInt z => if (z <? 0)%Z then None else Some (g_to_ulong z)   (* negative: refused *)
                       | _ => None
                       end in
             match bn with
@@ -557,7 +557,16 @@ Definition jwk_gen (X : g_ext) (jwk : json) : option json :=
   | Some j1 =>
       match gen_make X j1 with
       | None => None
-      | Some j2 => gen_post j2
+      | Some j2 =>
+          (* generation-only parameters never stay in the key *)
+          match g_del_present g_bytes j2 with
+          | None => None
+          | Some j3 =>
+              match g_del_present g_bits j3 with
+              | None => None
+              | Some j4 => gen_post j4
+              end
+          end
       end
   end.
 
